@@ -2,7 +2,8 @@ import Sif.Model.Clp.State
 /-
   x/clp/keeper/msg_server.go + executors.go — the user messages of the AMM, as
   `St → … → R St` (`.error` = error return or recovered panic: DeliverTx discards the writes).
-  Out of this slice (fixed by the harness configuration): liquidity protection inactive, the removal
+  Liquidity protection (the threshold gate of swaps and of the implicit swap of an asymmetric add) is
+  in the slice.  Out of this slice (fixed by the harness configuration): the removal
   queue disabled (clp param EnableRemovalQueue = false; it is never persisted anyway), removal lock
   period 0 (C15 covers unlocks).  Pools may be margin-enabled (`Params.marginPools`) and carry margin
   liabilities / custody: removals from an enabled pool pass the pool-health gate of the handlers,
@@ -12,6 +13,97 @@ namespace Sif.Clp
 
 def optR {α} (o : Option α) : R α := match o with | some a => .ok a | none => .error .err
 def guardR (b : Bool) : R Unit := if b then .ok () else .error .err
+
+/-! ### liquidity protection (keeper/liquidityprotection.go) -/
+
+/-- `GetNativePrice`: 1 when the threshold is denominated in the native token, otherwise the spot price
+    of the threshold asset's pool (`CalcRowanSpotPrice`); no such pool / empty native side = error -/
+def nativePrice (s : St) : R Dec :=
+  if s.params.lpAsset = rowan then .ok Dec.one else do
+    let pool ← optR (s.pools.get (poolKey s.params.lpAsset))
+    let (nD, eD) ← liftM pool.depths
+    guardR (nD != 0)
+    let un ← liftM (Dec.quo (Dec.ofNat eD) (Dec.ofNat nD))
+    let r1 ← liftM (Dec.add s.params.r Dec.one)
+    liftM (Dec.mul un r1)
+
+/-- `CalcRowanValue` -/
+def rowanValue (amount : Nat) (price : Dec) : M Nat := do
+  let v ← Dec.mul price (Dec.ofNat amount)
+  Uint.ofInt v.roundInt
+
+/-- `CalculateDiscountedSentAmount` -/
+def discountedSent (sent : Nat) (fee : Dec) : M Nat := do
+  let d ← Dec.mul (Dec.ofNat sent) fee
+  Uint.ofInt ((sent : Int) - d.roundInt)
+
+/-- `MustUpdateLiquidityProtectionThreshold` → the new current threshold -/
+def lpUpdate (cur mx : Nat) (sell : Bool) (amount : Nat) (price : Dec) : M Nat := do
+  let v ← rowanValue amount price
+  if sell then
+    if cur < v then .error .other else Uint.sub cur v
+  else do
+    let room ← Uint.sub mx cur
+    if room < v then pure mx else Uint.add cur v
+
+/-- `BeginBlocker`, first part: the threshold is replenished by max / EpochLength per block, up to the
+    maximum (`QuoUint64` panics on 0, `Sub` when the current threshold exceeds the maximum) -/
+def lpBeginBlock (s : St) (epochLength : Nat) : M St :=
+  if s.params.lpActive then do
+    let rep ← Uint.quo s.params.lpMax epochLength
+    let room ← Uint.sub s.params.lpMax s.lpCur
+    if room < rep then pure { s with lpCur := s.params.lpMax }
+    else do
+      let c ← Uint.add s.lpCur rep
+      pure { s with lpCur := c }
+  else pure s
+
+/-- swap, before anything moves: the price (needed later too) and the gate on selling native -/
+def lpSwapBefore (s : St) (sent : String) (amt : Nat) : R (Option Dec) :=
+  if s.params.lpActive then do
+    let price ← nativePrice s
+    if sent = rowan then do
+      let v ← liftM (rowanValue amt price)
+      guardR (!(decide (s.lpCur < v)))
+      pure (some price)
+    else pure (some price)
+  else .ok none
+
+/-- swap, after the payout: selling native lowers the threshold by the value of the discounted amount -/
+def lpSwapSold (cur mx : Nat) (price : Dec) (sent : String) (amt : Nat) (f : Dec) : R Nat :=
+  if sent = rowan then do
+    let d ← liftM (discountedSent amt f)
+    liftM (lpUpdate cur mx true d price)
+  else .ok cur
+
+/-- … buying native raises it by the value of the emitted amount, up to the maximum -/
+def lpSwapBought (cur mx : Nat) (price : Dec) (recv : String) (y : Nat) : R Nat :=
+  if recv = rowan then liftM (lpUpdate cur mx false y price) else .ok cur
+
+/-- swap, after the payout: the threshold moves by what was sold / bought → the new threshold -/
+def lpSwapAfter (cur mx : Nat) (price : Option Dec) (sent recv : String) (amt y : Nat) (f : Dec) : R Nat :=
+  match price with
+  | none => .ok cur
+  | some price => do
+    let c1 ← lpSwapSold cur mx price sent amt f
+    lpSwapBought c1 mx price recv y
+
+/-- add: the implicit swap of an asymmetric add is gated and accounted like a swap → the new threshold -/
+def lpAdd (s : St) (u : UnitsRes) (nD eD : Nat) (fSell fBuy : Dec) : R Nat :=
+  if s.params.lpActive then
+    match u.status with
+    | .noSwap => .ok s.lpCur
+    | .sellNative => do
+        let price ← nativePrice s
+        let v ← liftM (rowanValue u.swapAmount price)
+        guardR (!(decide (s.lpCur < v)))
+        let d ← liftM (discountedSent u.swapAmount fSell)
+        liftM (lpUpdate s.lpCur s.params.lpMax true d price)
+    | .buyNative => do
+        let res ← liftM (calcSwapResult true eD u.swapAmount nD s.params.r fBuy)
+        let price ← nativePrice s
+        liftM (lpUpdate s.lpCur s.params.lpMax false res.1 price)
+  else .ok s.lpCur
 
 /-- `CreatePool` -/
 def createPool (s : St) (signer sym : String) (nAmt eAmt : Nat) : R St := do
@@ -38,8 +130,8 @@ def lpAfterAdd (s : St) (sym signer : String) (lpUnits : Nat) : M LP :=
       let u ← Uint.add lp.units lpUnits
       pure { sym := sym, addr := signer, units := u, lastUpdated := s.height }
 
-/-- `AddLiquidity` -/
-def addLiquidity (s : St) (signer sym : String) (nAmt eAmt : Nat) : R St := do
+/-- `AddLiquidity` without the liquidity-protection accounting -/
+def addLiquidityCore (s : St) (signer sym : String) (nAmt eAmt : Nat) : R St := do
   guardR (s.params.registered.contains rowan)
   guardR (s.params.registered.contains sym)
   let pool ← optR (s.pools.get (poolKey sym))
@@ -55,6 +147,20 @@ def addLiquidity (s : St) (signer sym : String) (nAmt eAmt : Nat) : R St := do
   let lp ← liftM (lpAfterAdd s sym signer u.lpUnits)
   let pool' := { pool with sym := sym, units := u.poolUnits, nBal := nB, eBal := eB }
   pure ((s2.setPool pool').setLP lp)
+
+/-- the threshold after an add (recomputes what the handler has at hand at that point) -/
+def addLiquidityLp (s : St) (sym : String) (nAmt eAmt : Nat) : R Nat := do
+  let pool ← optR (s.pools.get (poolKey sym))
+  let (nD, eD) ← liftM pool.depths
+  let u ← liftM (calculatePoolUnits pool.units nD eD nAmt eAmt (feeRate s.params rowan) (feeRate s.params sym) s.params.r)
+  let u ← optR u
+  lpAdd s u nD eD (feeRate s.params rowan) (feeRate s.params sym)
+
+/-- `AddLiquidity` -/
+def addLiquidity (s : St) (signer sym : String) (nAmt eAmt : Nat) : R St := do
+  let c ← addLiquidityLp s sym nAmt eAmt
+  let s' ← addLiquidityCore s signer sym nAmt eAmt
+  pure { s' with lpCur := c }
 
 /-- `Keeper.RemoveLiquidity`: too-shallow guard, `SetPool`, payout, provider update -/
 def finishRemoval (s : St) (pool' : Pool) (sym addr : String) (wN wE lpUnitsLeft nD eD : Nat) : R St := do
@@ -156,8 +262,8 @@ def swapFirstLeg (s : St) (sent : String) (amt : Nat) (f : Dec) : R (St × Nat) 
 def swapRoute (s : St) (sent recv : String) (amt : Nat) (f : Dec) : R (St × Nat) :=
   if sent ≠ rowan ∧ recv ≠ rowan then swapFirstLeg s sent amt f else .ok (s, amt)
 
-/-- `Swap` → (state, emitted amount) -/
-def swap (s : St) (signer sent recv : String) (amt minRecv : Nat) : R (St × Nat) := do
+/-- `Swap` without the liquidity-protection gate and accounting → (state, emitted amount) -/
+def swapCore (s : St) (signer sent recv : String) (amt minRecv : Nat) : R (St × Nat) := do
   guardR (s.params.registered.contains sent)
   guardR (s.params.registered.contains recv)
   let f := feeRate s.params sent
@@ -173,6 +279,13 @@ def swap (s : St) (signer sent recv : String) (amt minRecv : Nat) : R (St × Nat
   guardR (!(s3.params.blocked.contains signer))
   let s4 ← optR (send s3 clpAcct signer recv y)
   pure (s4, y)
+
+/-- `Swap` → (state, emitted amount) -/
+def swap (s : St) (signer sent recv : String) (amt minRecv : Nat) : R (St × Nat) := do
+  let price ← lpSwapBefore s sent amt
+  let (s4, y) ← swapCore s signer sent recv amt minRecv
+  let c ← lpSwapAfter s.lpCur s.params.lpMax price sent recv amt y (feeRate s.params sent)
+  pure ({ s4 with lpCur := c }, y)
 
 /-- refunds of `DecommissionPool`, provider by provider in store order; the running balances
     only serve the underflow panics of the handler -/
